@@ -23,7 +23,7 @@ import (
 
 var fileNames = []string{"index.html", "a/p.html", "a/b/q.html"}
 
-var kinds = []string{"extends", "import", "render"}
+var kinds = []string{"extends", "import", "render", "render-default"}
 
 var paths = []string{"p.html", "/a/p.html", "../index.html", "../../x", "../../../etc", "b/q.html", "./p.html", "..a/p.html"}
 
@@ -85,6 +85,9 @@ func (g *graph) body(i int) string {
 			fmt.Fprintf(&imp, "{%% import %q %%}\n", r.path)
 		case "render":
 			fmt.Fprintf(&ren, "{%% macro M%d%d %%}{{ render %q }}{%% end %%}\n", i+1, j+1, r.path)
+		case "render-default":
+			// falls back to the default expression when the file does not exist
+			fmt.Fprintf(&ren, "{%% macro M%d%d %%}{{ render %q default \"fallback\" }}{%% end %%}\n", i+1, j+1, r.path)
 		}
 	}
 	return ext.String() + imp.String() + ren.String()
@@ -118,12 +121,16 @@ func (g *graph) model() modelInfo {
 		for _, r := range g.refs[i] {
 			name, ok := resolve(fileNames[i], r.path)
 			if !ok {
-				m.escaping = append(m.escaping, fileNames[i]+": "+r.String())
+				if r.kind != "render-default" { // with a default, a file that is not found is not an error
+					m.escaping = append(m.escaping, fileNames[i]+": "+r.String())
+				}
 				continue
 			}
 			t := g.fileIndex(name)
 			if t < 0 {
-				m.missing = append(m.missing, fileNames[i]+": "+r.String()+" -> "+name)
+				if r.kind != "render-default" {
+					m.missing = append(m.missing, fileNames[i]+": "+r.String()+" -> "+name)
+				}
 				continue
 			}
 			switch state[t] {
@@ -430,7 +437,7 @@ func main() {
 		ID:       "C18",
 		Level:    "model_checking",
 		Isolated: true,
-		Rule: "every assignment of references (3 kinds x 8 path strings) to the three files index.html, a/p.html, a/b/q.html with at most 1 (quick) / 2 (thorough) references in index.html and at most 1 in each of the others; every graph is built three times, through a recording fs.FS, a recording FormatFS and a recording fs.ReadFileFS; " +
+		Rule: "every assignment of references (4 kinds — extends, import, render, render with default — x 8 path strings) to the three files index.html, a/p.html, a/b/q.html with at most 1 (quick) / 2 (thorough) references in index.html and at most 1 in each of the others; every graph is built three times, through a recording fs.FS, a recording FormatFS and a recording fs.ReadFileFS; " +
 			"a case is non-trivial when index.html carries at least one reference. Indices enumerate distinct reference assignments (mixed radix)",
 		Assumptions: []string{
 			"model resolution: a path starting with / is taken from the root, any other is path.Join(dir of the referencing file, path); a result that is .. or starts with ../ leaves the root",
